@@ -57,6 +57,12 @@ def validate(ctx, trace, man, shards):
         tot["types"] |= set(r["types"])
         for idx, verdict in r["bad"]:
             ev = json.loads(chunk[idx - 1])
+            if ev["k"] == "enum":
+                where = "%s#/%s" % (ev["id"].split("/draft-0/")[-1], "/".join(ev["segs"]))
+                ctx.disagreements.append({"cls": "schema-enum:%s:%s" % (verdict, where),
+                                          "what": "the library enumerates %r at %s but the published schema does not accept it there (%s)" % (ev["text"], where, verdict),
+                                          "family": "schema", "replay": {"enum": True, "id": ev["id"], "segs": ev["segs"], "text": ev["text"]}})
+                continue
             cls, _ = cls_of(verdict)
             ctx.disagreements.append({"cls": cls,
                                       "what": "the library calculated and validated %s (%s at %s -> %r) but the published schema rejects it: %s" % (
@@ -99,7 +105,7 @@ def run(ctx):
     tot = validate(ctx, trace, man, 16)
     if len(tot["types"]) < 5:
         raise core.Infra("only %d document types were accepted: the instance generator is not working" % len(tot["types"]))
-    lines = open(trace).read().splitlines()
+    lines = [l for l in open(trace).read().splitlines() if '"k":"instance"' in l]
     samples = []
     for i in (0, len(lines) // 2, len(lines) - 1):
         e = json.loads(lines[i])
@@ -109,7 +115,7 @@ def run(ctx):
            "rule": "evaluations = mutated documents run through the real code; accepted documents with distinct serialisations are the candidates; all unmutated "
                    "and library-derived documents, one per (mutation kind, field, document type) class, then a seeded fill up to the tier's bound are evaluated "
                    "by TLC against the published schemas (whole envelope + whole document each)",
-           "schema_files": data["files"], "patterns": data["patterns"], "outcomes": st, "document_types": sorted(tot["types"]),
+           "schema_files": data["files"], "enumerated_values_checked": st.get("enumerated-values"), "patterns": data["patterns"], "outcomes": st, "document_types": sorted(tot["types"]),
            "classes_available": st.get("classes"), "exhaustive": False}
     return core.finish(ctx, "model_checking", cov, [
         "TLC and JsonSchema.tla are trusted: the evaluator covers the keywords the published files use (an unknown keyword is reported as a problem of "
@@ -126,6 +132,10 @@ def replay(ctx, path):
     man = export(ctx, vd)
     if rp.get("family") == "schema-file":
         model(ctx, man)
+    elif rp["cases"] and rp["cases"][0] and rp["cases"][0].get("enum"):
+        trace = ctx.path("replay.ndjson")
+        ctx.run([vd, "schema-run", "-repo", core.REPO, "-out", trace, "-max", "1", "-docs", "1"])
+        validate(ctx, trace, man, 1)
     else:
         trace = ctx.path("replay.ndjson")
         open(trace, "w").close()
